@@ -617,6 +617,20 @@ theorem parseComment_sh (s : Stream) :
   refine SimT.ite (fun _ => SimT.lift Sim.errFrom) (fun _ => ?_)
   refine SimT.bind (SimT.emit rfl) (fun _ _ => SimT.pure rfl)
 
+theorem declConsumeSpaces_sh (s : Stream) :
+    OkTo (sh k) (declConsumeSpaces T txt s) (declConsumeSpaces T txt' (sh k s)) := by
+  unfold declConsumeSpaces
+  have h1 : (sh k s).startsWithSpace T = s.startsWithSpace T := rfl
+  have h2 : (sh k s).startsWith Lit.piEnd = s.startsWith Lit.piEnd := rfl
+  have h3 : (sh k s).atEnd = s.atEnd := rfl
+  rw [h1, h2, h3, skipSpaces_sh]
+  refine Sim.ite (fun _ => OkTo.ok rfl) (fun _ => ?_)
+  refine Sim.ite (fun _ => ?_) (fun _ => OkTo.ok rfl)
+  simp only [sh_rest]
+  cases s.rest with
+  | nil => exact Sim.panic
+  | cons b r => exact Sim.errAt
+
 theorem parsePi_sh (s : Stream) :
     SimT k (sh k) (parsePi T txt s) (parsePi T txt' (sh k s)) := by
   unfold parsePi
@@ -626,7 +640,7 @@ theorem parsePi_sh (s : Stream) :
   refine SimT.bind (SimT.lift (consumeName_sh T k txt txt' s1)) (fun a _ => ?_)
   obtain ⟨s2, target⟩ := a
   dsimp only
-  rw [skipSpaces_sh]
+  refine SimT.bind (SimT.lift (declConsumeSpaces_sh T k txt txt' s2)) (fun s2' _ => ?_)
   refine SimT.bind (SimT.lift (consumeChars_sh T k txt txt' _ _ (fun _ _ _ => rfl) _)) (fun a _ => ?_)
   obtain ⟨s3, content⟩ := a
   dsimp only
